@@ -161,6 +161,7 @@ type result struct {
 	MaxDepth      int `json:"max_nesting_depth"`
 	Concurrent    int `json:"cases_with_concurrent_derivation"`
 	Reused        int `json:"stacks_built_again_from_the_same_argument_slice"`
+	ArgsMutated   int `json:"stacks_whose_argument_slice_was_overwritten_afterwards"`
 	Distinct      int `json:"distinct_constructions"` // distinct construction descriptions with at least two stacks
 	distinct      map[uint64]struct{}
 	Viols         []viol `json:"viols,omitempty"`
@@ -270,8 +271,12 @@ func runCase(seed uint64, idx int, res *result) {
 	var desc []string
 	var reused []*node
 	usedAsChild := map[*node]int{}
+	// an emitter that is never part of any stack: the caller writes it into its
+	// own argument slice after EmitterStack has returned
+	decoy := &leaf{id: nLeaves}
+	leaves = append(leaves, decoy)
 	build := func(args []*node) *node {
-		ems := make([]cff.Emitter, len(args))
+		ems := make([]cff.Emitter, len(args), len(args)+3)
 		var fl []int
 		dmax := 0
 		var names []int
@@ -302,6 +307,15 @@ func runCase(seed uint64, idx int, res *result) {
 			res.Stacks++
 			res.Reused++
 			reused = append(reused, n2)
+		}
+		if r.Chance(1, 2) {
+			// the caller goes on using its slice (it has spare capacity: appending
+			// to it does not reallocate) - a stack must not alias it
+			for i := range ems {
+				ems[i] = decoy
+			}
+			_ = append(ems, decoy)
+			res.ArgsMutated++
 		}
 		return n
 	}
